@@ -49,6 +49,9 @@ class Module:
         stringEnd)
 
     rule.ignore(cppStyleComment)
+    # Keep tabs as they are: expanding them to the next tab stop would make a
+    # verbatim default value depend on the column it happens to start in.
+    rule.parseWithTabs()
 
     @staticmethod
     def parseString(s: str) -> ParseResults:
